@@ -138,7 +138,7 @@ def gen_case(rng, n_ops, faults=False, crashes=False):
 # ---------------------------------------------------------------------------------------------- stream definition
 
 def gen_world(rng, tier):
-    ncases = 160 if tier == "thorough" else 40
+    ncases = 500 if tier == "thorough" else 60
     for i in range(ncases):
         faults = i % 3 == 1
         crashes = i % 3 == 2
